@@ -136,6 +136,9 @@ def run(chk):
         m = (alls + anys)[0]
         is_all = bool(alls)
         cl = m["args"][0]
+        pre = [x["method"] for x in method_calls(m["recv"]) if x["method"] in ("filter", "filter_map", "map", "flat_map", "skip", "take", "rev")]
+        if pre:
+            raise Inconclusive(f"missing-lifetime test runs over an adapted iterator ({pre}); the predicate table of this rule assumes the raw generic parameters")
 
         def mk():
             return Evaluator(repo, IMPL_FILES, shallow=True)
